@@ -379,6 +379,28 @@ func lengthClasses(root ssa.Value, rg map[*ssa.Global]string) ([]aval, string) {
 	return []aval{{k: kNil}, sliceLen(0), sliceLen(1), sliceLen(2), sliceLen(3)}, "length classes nil,0,1,2,3"
 }
 
+// resolveParam: a parameter of an unexported function with exactly one direct
+// call site stands for the argument passed there (followed through such calls).
+func resolveParam(v ssa.Value) ssa.Value {
+	for i := 0; i < 4; i++ {
+		prm, ok := v.(*ssa.Parameter)
+		if !ok || theProgram == nil {
+			return v
+		}
+		fn := prm.Parent()
+		sites, ok := theProgram.directCallSites(fn)
+		if !ok || len(sites) != 1 {
+			return v
+		}
+		a := argFor(fn, sites[0], prm)
+		if a == nil {
+			return v
+		}
+		v = a
+	}
+	return v
+}
+
 // splitAtLeastTwo: strings.Split(s[m[2k]:], sep) where m is the (non-nil)
 // FindStringSubmatchIndex of s under a constant pattern in which capture k is
 // mandatory and the text from its start to the end of the match always
@@ -400,7 +422,7 @@ func splitAtLeastTwo(c *ssa.Call, rg map[*ssa.Global]string) string {
 	if !ok || sl.Low == nil || sl.High != nil {
 		return ""
 	}
-	ld, ok := stripIntConv(sl.Low).(*ssa.UnOp)
+	ld, ok := stripIntConv(resolveParam(stripIntConv(sl.Low))).(*ssa.UnOp)
 	if !ok || ld.Op != token.MUL {
 		return ""
 	}
@@ -417,7 +439,7 @@ func splitAtLeastTwo(c *ssa.Call, rg map[*ssa.Global]string) string {
 		return ""
 	}
 	pat, ok := regexOfValue(m.Common().Args[0], rg)
-	if !ok || !sameStringValue(m.Common().Args[1], sl.X) {
+	if !ok || !sameStringValue(m.Common().Args[1], resolveParam(sl.X)) {
 		return ""
 	}
 	kv, _ := constant.Int64Val(k.Value)
@@ -1340,6 +1362,28 @@ func pan3Site(p *Program, r0 *RuleResult, s boundSite, rg map[*ssa.Global]string
 	// D4/D5: hypothesis-driven SCCP over the length classes of the root values
 	var roots []ssa.Value
 	rootsOf(s.base, map[ssa.Value]bool{}, &roots)
+	// D4c: a site whose operand is a parameter of an unexported, only directly called
+	// function is first decided in the context of each call site: the caller is
+	// analysed under the length classes of *its* roots (its guards then apply)
+	// and the evaluations of this instruction inside the inlined callee are read off
+	if len(roots) > 0 {
+		allParams := true
+		for _, rt := range roots {
+			if _, ok := rt.(*ssa.Parameter); !ok {
+				allParams = false
+			}
+		}
+		if allParams {
+			if w, decided, n := pan3InCallers(p, s, rg); w != "" {
+				r.bad(key, desc, pos, "out-of-range access is reachable "+w)
+				return
+			} else if decided {
+				r.count("sccp_discharged", 1)
+				r.ok(key, desc, pos, fmt.Sprintf("SCCP of each of the %d call sites' functions under every length class of their root operands: the access, evaluated inside the inlined callee, is unreachable or in range", n), true)
+				return
+			}
+		}
+	}
 	// other slice-typed parameters take part in length relations (len(a) != len(b))
 	for _, prm := range fn.Params {
 		if _, ok := prm.Type().Underlying().(*types.Slice); ok && len(roots) < 3 {
@@ -1474,6 +1518,90 @@ func pan3Site(p *Program, r0 *RuleResult, s boundSite, rg map[*ssa.Global]string
 	} else {
 		r.bad(key, desc, pos, "slice bounds not proved within the operand ("+how+")")
 	}
+}
+
+// pan3InCallers: see D4c. witness != "" when some call site reaches the access
+// out of range; decided when every evaluation of the site in every caller
+// hypothesis had known bounds and none was out of range.
+func pan3InCallers(p *Program, s boundSite, rg map[*ssa.Global]string) (witness string, decided bool, nsites int) {
+	sites, ok := p.directCallSites(s.fn)
+	if !ok {
+		return "", false, 0
+	}
+	// the call sites of one caller are decided together (the callee is inlined at each of them)
+	var callers []*ssa.Function
+	byCaller := map[*ssa.Function][]*ssa.Call{}
+	for _, c := range sites {
+		F := c.Parent()
+		if F == nil || F == s.fn {
+			return "", false, 0
+		}
+		if byCaller[F] == nil {
+			callers = append(callers, F)
+		}
+		byCaller[F] = append(byCaller[F], c)
+	}
+	for _, F := range callers {
+		var roots []ssa.Value
+		seen := map[ssa.Value]bool{}
+		for _, c := range byCaller[F] {
+			for _, a := range c.Common().Args {
+				if isSliceOrString(a.Type()) {
+					rootsOf(a, seen, &roots)
+				}
+			}
+		}
+		if len(roots) > 4 {
+			return "", false, 0
+		}
+		classes := make([][]aval, len(roots))
+		total := 1
+		for i, rt := range roots {
+			cl, _ := lengthClasses(rt, rg)
+			if prm, ok := rt.(*ssa.Parameter); ok {
+				if pc, _, ok := paramClasses(p, prm, rg); ok {
+					cl = pc
+				}
+			}
+			classes[i] = cl
+			total *= len(cl)
+		}
+		assign := make([]int, len(roots))
+		for n := 0; n < total; n++ {
+			k := n
+			for i := range roots {
+				assign[i] = k % len(classes[i])
+				k /= len(classes[i])
+			}
+			an := newAnalyzer()
+			an.maxBlocks = 200
+			an.callModel = pan3Model(rg)
+			var hyp []string
+			for i, rt := range roots {
+				an.pin[rt] = classes[i][assign[i]]
+				for _, alias := range sameLoads(F, rt) {
+					an.pin[alias] = classes[i][assign[i]]
+				}
+				hyp = append(hyp, classes[i][assign[i]].String())
+			}
+			res := an.analyze(F, nil)
+			if res.nonconverged {
+				return "", false, 0
+			}
+			for _, h := range res.hazards {
+				if h.leaf == s.ins {
+					if strings.Contains(h.what, "index ?") {
+						return "", false, 0
+					}
+					return fmt.Sprintf("from %s with operand lengths %s: %s", short(F), strings.Join(hyp, ","), h.what), false, 0
+				}
+			}
+			if res.siteUndecided[s.ins] > 0 {
+				return "", false, 0
+			}
+		}
+	}
+	return "", true, len(sites)
 }
 
 func isConstVal(v ssa.Value) bool {
@@ -1635,12 +1763,12 @@ func valueWithinLen(s boundSite, v ssa.Value) (upper, lower bool) {
 	}
 	// re.FindStringSubmatchIndex(base)[2k], [2k+1] for a capture group that takes part
 	// in every match of the (constant) pattern: a byte offset within base
-	if ld, ok := idx.(*ssa.UnOp); ok && ld.Op == token.MUL {
+	if ld, ok := stripIntConv(resolveParam(idx)).(*ssa.UnOp); ok && ld.Op == token.MUL {
 		if ia, ok := ld.X.(*ssa.IndexAddr); ok {
 			if k, ok := ia.Index.(*ssa.Const); ok && k.Value != nil {
 				if c, ok := ia.X.(*ssa.Call); ok && c.Common().StaticCallee() != nil && c.Common().StaticCallee().RelString(nil) == "(*regexp.Regexp).FindStringSubmatchIndex" {
 					kv, _ := constant.Int64Val(k.Value)
-					if pat, ok := regexOfValue(c.Common().Args[0], pan3Regex); ok && sameStringValue(c.Common().Args[1], s.base) && captureMandatory(pat, int(kv)/2) {
+					if pat, ok := regexOfValue(c.Common().Args[0], pan3Regex); ok && sameStringValue(c.Common().Args[1], resolveParam(s.base)) && captureMandatory(pat, int(kv)/2) {
 						return true, true
 					}
 				}
